@@ -1068,6 +1068,8 @@ _TB_POS = {
     "control-line": (["% if boom():", "x", "% endif"], 1),
     "def-body": (["<%def name=\"d()\">", "in def ${boom()}", "</%def>", "${d()}"], 2),
     "call-body": (["<%def name=\"w()\">${caller.body()}</%def>", "<%call expr=\"w()\">", "  ${boom()}", "</%call>"], 3),
+    # under strict_undefined a name nobody supplies raises NameError for the expression that reads it
+    "strict-undefined-name": (["a", "${nosuchname}", "b"], 2),
     # the body of a call to a def of ANOTHER template: page -> lib's def -> back into the page
     "call-body-of-a-def-in-another-template": (["<%namespace name=\"lib\" file=\"/lib.mako\"/>", "<%lib:wrap>", "  ${boom()}", "</%lib:wrap>"], 3),
 }
@@ -1099,26 +1101,29 @@ def traceback_probe(position, source, lead):
             f.write(text)
         with open(os.path.join(base, "lib.mako"), "w") as f:
             f.write("<%def name=\"wrap()\">[${caller.body()}]</%def>\n")
+        strict = position == "strict-undefined-name"
+        lkw = {"strict_undefined": True} if strict else {}
         lib = {"lookup": TemplateLookup([base])} if "another-template" in position else {}
+        tkw = dict(lib, **lkw)
         real_mods = os.path.join(base, "modules")
         link = os.path.join(base, "link")
         os.symlink(base, link)              # <base>/link -> <base>: every path below can also be spelled through the link
         name = fn
         if source == "string":
-            t = Template(text, **lib)
+            t = Template(text, **tkw)
             name = t.uri
         elif source == "string-with-uri":
-            t = Template(text, uri="/some/uri.html", **lib)
+            t = Template(text, uri="/some/uri.html", **tkw)
             name = "/some/uri.html"
         elif source == "file":
-            t = Template(filename=fn, **lib)
+            t = Template(filename=fn, **tkw)
         elif source == "lookup":
-            t = TemplateLookup([base]).get_template("page.mako")
+            t = TemplateLookup([base], **lkw).get_template("page.mako")
         elif source == "module-file":
-            t = Template(filename=fn, module_directory=real_mods, **lib)
+            t = Template(filename=fn, module_directory=real_mods, **tkw)
         elif source == "module-file-reload":
-            Template(filename=fn, module_directory=real_mods, **lib)
-            t = Template(filename=fn, module_directory=real_mods, **lib)
+            Template(filename=fn, module_directory=real_mods, **tkw)
+            t = Template(filename=fn, module_directory=real_mods, **tkw)
         elif source == "module-file-after-edit":
             # the dev-server loop: an earlier version of the file fails (its error is formatted), the file is edited so that
             # everything moves down, and the new version is loaded into the same module directory in the same process
@@ -1127,26 +1132,26 @@ def traceback_probe(position, source, lead):
             old = os.stat(fn).st_mtime
             os.utime(fn, (old - 100, old - 100))
             try:
-                Template(filename=fn, module_directory=real_mods, **lib).render(boom=boom)
-            except Boom:
+                Template(filename=fn, module_directory=real_mods, **tkw).render(boom=boom)
+            except (Boom, NameError):
                 exceptions.RichTraceback()
                 exceptions.text_error_template().render()
             with open(fn, "w") as f:
                 f.write(text + "one more line\n" * 3)
             import time
             os.utime(fn, (time.time() + 5, time.time() + 5))       # whole seconds later than the module file
-            t = Template(filename=fn, module_directory=real_mods, **lib)
+            t = Template(filename=fn, module_directory=real_mods, **tkw)
         elif source == "module-directory-through-symlink":
-            t = Template(filename=fn, module_directory=os.path.join(link, "modules"), **lib)
+            t = Template(filename=fn, module_directory=os.path.join(link, "modules"), **tkw)
         elif source == "lookup-through-symlink":
-            t = TemplateLookup([link], module_directory=os.path.join(link, "modules")).get_template("page.mako")
+            t = TemplateLookup([link], module_directory=os.path.join(link, "modules"), **lkw).get_template("page.mako")
             name = os.path.join(link, "page.mako")
         else:
             raise ValueError(source)
         try:
             t.render(boom=boom)
             return (("no exception",), (True, want_line, all_lines[want_line - 1], all_lines[want_line - 1]))
-        except Boom:
+        except (Boom, NameError):
             tb = exceptions.RichTraceback()
         recs = [r for r in tb.records if r[4] is not None]
         if not recs:
